@@ -11,10 +11,32 @@ package extra25519
 //@ func PublicKeyToCurve25519
 //@   requires len(edBytes) == 32
 //@   ensures ret1 ==> len(ret0) == 32 && ret0 != nil
+// C14: conversion is refused for every encoding that matches a table row (ignoring the sign bit)
+//@   ensures (exists i int :: 0 <= i && i < 7 && agree(edBytes, i)) ==> !ret1
 //@   ensures !ret1 ==> ret0 == nil
 //@   fresh ret0
 
-// C14 (functional contract in BV mode is separate): no out-of-bounds access for 32-byte input.
+// ---- C14 ----
+// agree(ge, i): ge equals row i of the table on all 32 bytes, the last one compared without its top
+// (sign) bit.
+//@ spec fun agree(ge bytes, i int) bool = (forall j int trigger ge[j] :: 0 <= j && j < 31 ==> ge[j] == edBlacklist[i][j]) && ge[31] % 128 == edBlacklist[i][31]
+
+// IsEdLowOrder is true exactly for the 32-byte strings that equal one of the seven table rows (the
+// encodings of the small-order points, from libsodium), ignoring the sign bit.
+// Loop invariants: c[i] is a byte; c[i] == 0 implies agreement on the bytes compared so far for row i,
+// c[i] != 0 implies a disagreement among them (with the row's progress inside the inner loops).
 //@ func IsEdLowOrder
-//@   trusted bit-level contract is checked by C14
 //@   requires len(ge) == 32
+//@   loop 1 invariant 0 <= j && j <= 31 && (forall i2 int trigger c[i2] :: 0 <= i2 && i2 < 7 ==> 0 <= c[i2] && c[i2] <= 255)
+//@   loop 1 invariant forall i2 int, j2 int trigger c[i2], ge[j2] :: 0 <= i2 && i2 < 7 && c[i2] == 0 && 0 <= j2 && j2 < j ==> ge[j2] == edBlacklist[i2][j2]
+//@   loop 1 invariant forall i2 int trigger c[i2] :: 0 <= i2 && i2 < 7 && c[i2] != 0 ==> exists j2 int :: 0 <= j2 && j2 < j && ge[j2] != edBlacklist[i2][j2]
+//@   loop 2 invariant 0 <= j && j < 31 && 0 <= rangeiter && rangeiter < 7 && (forall i2 int trigger c[i2] :: 0 <= i2 && i2 < 7 ==> 0 <= c[i2] && c[i2] <= 255)
+//@   loop 2 invariant forall i2 int, j2 int trigger c[i2], ge[j2] :: 0 <= i2 && i2 < 7 && c[i2] == 0 && 0 <= j2 && (j2 < j || (j2 == j && i2 < rangeiter)) ==> ge[j2] == edBlacklist[i2][j2]
+//@   loop 2 invariant forall i2 int trigger c[i2] :: 0 <= i2 && i2 < 7 && c[i2] != 0 ==> exists j2 int :: 0 <= j2 && (j2 < j || (j2 == j && i2 < rangeiter)) && ge[j2] != edBlacklist[i2][j2]
+//@   loop 3 invariant j == 31 && 0 <= i && i <= 7 && (forall i2 int trigger c[i2] :: 0 <= i2 && i2 < 7 ==> 0 <= c[i2] && c[i2] <= 255)
+//@   loop 3 invariant forall i2 int, j2 int trigger c[i2], ge[j2] :: 0 <= i2 && i2 < 7 && c[i2] == 0 && 0 <= j2 && j2 < 31 ==> ge[j2] == edBlacklist[i2][j2]
+//@   loop 3 invariant forall i2 int trigger c[i2] :: 0 <= i2 && i2 < i && c[i2] == 0 ==> ge[31] % 128 == edBlacklist[i2][31]
+//@   loop 3 invariant forall i2 int trigger c[i2] :: 0 <= i2 && i2 < 7 && c[i2] != 0 ==> (exists j2 int :: 0 <= j2 && j2 < 31 && ge[j2] != edBlacklist[i2][j2]) || (i2 < i && ge[31] % 128 != edBlacklist[i2][31])
+//@   loop 4 invariant 0 <= rangeiter && rangeiter < 7 && (k == -1 || (0 <= k && k <= 255)) && ((k == -1) <==> (exists i3 int :: 0 <= i3 && i3 < rangeiter && c[i3] == 0))
+//@   loop 4 invariant forall i2 int trigger c[i2] :: 0 <= i2 && i2 < 7 ==> 0 <= c[i2] && c[i2] <= 255 && ((c[i2] == 0) <==> agree(ge, i2))
+//@   ensures ret <==> (exists i int :: 0 <= i && i < 7 && agree(ge, i))
